@@ -249,9 +249,9 @@ func TestC18Single(t *testing.T) {
 		c.execute(t)
 		c.judge(t)
 		c.stats()
-		// non-trivial: an aborted attempt that had performed >= 1 write, and a chained write (a second
-		// write to the same local, or the same key of a function-valued local, within one attempt)
-		abortedAfterWrite, chained := false, false
+		// non-trivial: an aborted attempt that had performed >= 1 write and, later in the same attempt, a
+		// chained write (a second write to the same local, or to the same key of a function-valued local)
+		abortedAfterWrite, chained, both := false, false, false
 		for _, e := range pr.res.Events {
 			seen := map[string]bool{}
 			for _, o := range e.Ops {
@@ -265,6 +265,9 @@ func TestC18Single(t *testing.T) {
 					key := fmt.Sprintf("%d/%d", o.Res, o.Idx)
 					if seen[key] {
 						chained = true
+						if e.Outcome == prog.OutcomeAborted {
+							both = true
+						}
 					}
 					seen[key] = true
 				}
@@ -276,7 +279,7 @@ func TestC18Single(t *testing.T) {
 		if chained {
 			vstat.Class("single.chained-local-write")
 		}
-		if abortedAfterWrite && chained {
+		if both {
 			desc := c.render()
 			vstat.NonTrivial(desc, func() string { return desc + "history:\n" + c.history() })
 		}
